@@ -11,6 +11,7 @@ import (
 
 	"github.com/datastax/go-cassandra-native-protocol/client"
 	"github.com/datastax/go-cassandra-native-protocol/compression/lz4"
+	"github.com/datastax/go-cassandra-native-protocol/crc"
 	"github.com/datastax/go-cassandra-native-protocol/frame"
 	"github.com/datastax/go-cassandra-native-protocol/primitive"
 	"github.com/datastax/go-cassandra-native-protocol/segment"
@@ -113,6 +114,9 @@ var payloadSizes = []int{0, 1, 16, 300, 4096, 131071}
 
 func c07SegFromParams(p map[string]int) (*c07Seg, error) {
 	size := payloadSizes[p["size_class"]%len(payloadSizes)]
+	if sz, ok := p["size"]; ok {
+		size = sz
+	}
 	return c07Encode(p["lz4"] == 1, c07Payload(p["kind"], size, uint64(p["pseed"])), p["self"] == 1)
 }
 
@@ -355,6 +359,63 @@ func c07Enumerate(w *Worker) {
 				}
 				count(fmt.Sprintf("header%dbits_weight%d_patterns_sampled", seg.hdrBits, wgt), 20000)
 			}
+		}
+		// syndrome scan: for many header values taken from real encodings, EVERY alteration of weight <= 7
+		// over header+CRC-24 is examined through the library's own checksum function: an alteration
+		// (data bits m, CRC bits s) is accepted by the header stage iff crc(h^m) ^ crc(h) == s, so it
+		// suffices to enumerate m of weight w and test whether the syndrome has weight <= 7-w. This does
+		// not rely on the checksum being linear (a table-driven implementation with one wrong entry is
+		// not), which the "one header value, by linearity" enumeration above does. Candidates are then
+		// put through the real DecodeSegment.
+		{
+			nH := 24
+			maxWd := 6
+			if thorough {
+				nH, maxWd = 200, 7
+			}
+			hl := 3
+			if lz4On == 1 {
+				hl = 5
+			}
+			for i := 0; i < nH && !w.expired(); i++ {
+				base := map[string]int{"lz4": lz4On, "size": 1 + next(6000), "kind": 1 + next(2), "pseed": next(1 << 30), "self": next(2), "region": 0}
+				seg, err := c07SegFromParams(base)
+				if err != nil {
+					continue
+				}
+				codec := c07Codec(seg.lz4)
+				var h uint64
+				for k := 0; k < hl; k++ {
+					h |= uint64(seg.wire[k]) << (8 * uint(k))
+				}
+				ref := crc.ChecksumKoopman(h, hl)
+				alt := append([]byte(nil), seg.wire...)
+				for wd := 1; wd <= maxWd; wd++ {
+					enumMasks(hl*8, wd, func(m uint64) {
+						syn := crc.ChecksumKoopman(h^m, hl) ^ ref
+						w.Out.Counters["syndrome_scan_alterations_covered"]++
+						if bits.OnesCount32(syn) > 7-wd {
+							return
+						}
+						// the header stage accepts this alteration of weight <= 7: does the decoder?
+						mask := m | uint64(syn)<<(8*uint(hl))
+						for k := 0; k < hl+3; k++ {
+							alt[k] = seg.wire[k] ^ byte(mask>>(8*uint(k)))
+						}
+						w.Out.Counters["syndrome_scan_header_stage_accepts"]++
+						if ok, _ := c07Accepts(codec, alt); ok {
+							p := map[string]int{}
+							for k, v := range base {
+								p[k] = v
+							}
+							p["mask"] = int(mask)
+							report(p)
+						}
+					})
+				}
+				w.Out.Counters["syndrome_scan_header_values"]++
+			}
+			w.Out.Exhaustive[fmt.Sprintf("syndrome_scan_%dbit_headers", hl*8+24)] = fmt.Sprintf("every alteration with up to %d data-bit flips plus CRC-bit flips of total weight <= 7, for %d header values per worker taken from real encodings", maxWd, nH)
 		}
 		// payload + CRC32
 		for sc, size := range payloadSizes {
